@@ -195,10 +195,12 @@ def run(ctx, rep):
     comp = node_calls(cfg, "complete_order")
     good = len(pcall) == 1 and len(comp) == 1 and cfg.dominates(pcall[0][0].id, comp[0][0].id)
     if good:
-        gs = [(utext(g.exprs[0]), pol) for g, pol in cfg.guards(comp[0][0].id)]
-        good = ("order.complete", True) in gs and ("order in market.blotter.live_orders", True) in gs
-        mk2 = [s for s in walk_nodes(pco.node.body, ast.Assign) if utext(s.targets[0]) == "market"]
-        good = good and len(mk2) == 1 and utext(mk2[0].value) == "markets.markets[order.market_id]"
+        from sa.kinds import expanded
+        own = "markets.markets[order.market_id].blotter"
+        gs = [(expanded(pco, g.exprs[0]), pol) for g, pol in cfg.guards(comp[0][0].id)]
+        # the blotter is the one of the order's own market, however it is named on the way
+        good = ("order.complete", True) in gs and ("order in %s.live_orders" % own, True) in gs and \
+            expanded(pco, comp[0][1].func.value) == own and [utext(a) for a in comp[0][1].args] == ["order"]
     rep.check(good, "R4", key(pco, None, "a complete order leaves the live list of its own market, once"), pco)
     from sa.kinds import guard_pairs, gp
     rl = [n for n in cfg.live_nodes() if n.kind == "stmt" and isinstance(n.ast, ast.Assign) and utext(n.ast.targets[0]) == "order"
